@@ -11,10 +11,12 @@
 
     Not modelled (testing only): goroutine preemption inside the atomic steps listed in
     Recorder.v, Go's memory model for the two flags (taken to be sequentially consistent), gRPC,
-    timers (mainLoop), bufio's 4096 byte line limit. *)
-From Coq Require Import ZArith Sorted Permutation.
-From Drummer.Model Require Import Base Register WGL Jepsen Recorder RecorderAtomic.
-From Drummer.Proofs Require Import JepsenProofs RecorderProofs AtomicProofs.
+    timers (mainLoop), bufio's 4096 byte line limit.  The stage at which an operation fails
+    (connection / session / data rpc, error or deadline) is abstracted: whatever makes p.read /
+    p.write return an error is one [LRpcReturn p RErr]; the harness injects failures at every stage. *)
+From Coq Require Import String ZArith Sorted Permutation.
+From Drummer.Model Require Import Base Register WGL Jepsen JepsenText Recorder RecorderAtomic.
+From Drummer.Proofs Require Import JepsenProofs RecorderProofs AtomicProofs JepsenTextProofs.
 
 (** ** 1. The recorded history is a well-formed, faithful account (every interleaving, every
     number of processes)
@@ -91,6 +93,42 @@ Print Assumptions C07_recorded_linearizable.
 Theorem C07_atomic_refines : forall n ls a, arun (ainit n) ls = Some a -> reachable n (a_s a).
 Proof. exact arun_reachable. Qed.
 Print Assumptions C07_atomic_refines.
+
+(** ** 4. The TEXT form of the log does not matter (JepsenText.v): lines terminated by "\n" or by
+    "\r\n" in any mixture, the last line with or without a terminator, blank lines anywhere.
+
+    [render ls]: the bytes of the file with lines + terminators [ls]; [text_ok ls]: no line contains
+    "\n" or "\r", only the last line may lack its terminator; [payload ls]: the non-blank lines.
+    The ReadLine loop of the parser gets exactly the lines out of every such text ... *)
+Theorem C07_text_lines : forall ls, text_ok ls = true -> read_lines (render ls) = map fst ls.
+Proof. exact read_lines_render. Qed.
+Print Assumptions C07_text_lines.
+
+(** ... two texts with the same non-blank lines parse to the same history (for ANY lines, the
+    recorder's or not - cas operations, lines the parser ignores) ... *)
+Theorem C07_text_form_irrelevant : forall ls ls', text_ok ls = true -> text_ok ls' = true ->
+  payload ls = payload ls' ->
+  parse_log (render ls) = parse_log (render ls') /\
+  (forall h, parse_allowed (render ls) h <-> parse_allowed (render ls') h).
+Proof. exact text_form_irrelevant. Qed.
+Print Assumptions C07_text_form_irrelevant.
+
+(** ... hence the round trip of part 2 holds for every text form of the saved log, not only for the
+    bytes SaveAsJepsenLog writes ([saved_text], which always end in a newline) ... *)
+Theorem C07_roundtrip_text : forall es ls, Forall (fun e => printable e = true) es ->
+  text_ok ls = true -> payload ls = map format_line es ->
+  parse_log (render ls) = expected_log es /\
+  (forall h, parse_allowed (render ls) h <-> history_allowed es h).
+Proof. exact roundtrip_text. Qed.
+Print Assumptions C07_roundtrip_text.
+
+(** ... and so does the acceptance of a run against an atomic register *)
+Theorem C07_accepts_linearizable_text : forall n lbls a tl, arun (ainit n) lbls = Some a ->
+  n <= max_int + 1 -> value (a_s a) <= max_int + 1 ->
+  text_ok tl = true -> payload tl = map format_line (events (a_s a)) ->
+  forall h, parse_allowed (render tl) h -> wf h /\ linearizable h /\ check h = true.
+Proof. exact atomic_run_accepted_text. Qed.
+Print Assumptions C07_accepts_linearizable_text.
 
 (** ---- non-vacuity ---- *)
 
@@ -184,3 +222,39 @@ Example ex_stale_rejected :
   | None => False
   end.
 Proof. vm_compute. split; reflexivity. Qed.
+
+(* text forms: "write 1 ok; read -> 2" (NOT linearizable) with CRLF line ends, a blank line, a line of
+   blanks and no terminator after the last line; the text SaveAsJepsenLog writes for it is a text form too *)
+Definition ex_text_events : list Jepsen.event :=
+  [mkEvent TWrite RInvoked 0 1; mkEvent TWrite RCompleted 0 1; mkEvent TRead RInvoked 1 0; mkEvent TRead RCompleted 1 2].
+Definition ex_text : list tline :=
+  [(bs "INFO  jepsen.util - 0   :invoke :write  1", ECrlf); ([], ELf);
+   (bs "INFO  jepsen.util - 0   :ok     :write  1", ELf); (bs "   ", ECrlf);
+   (bs "INFO  jepsen.util - 1   :invoke :read   nil", ECrlf);
+   (bs "INFO  jepsen.util - 1   :ok     :read   2", ENone)].
+
+Example ex_text_ok : text_ok ex_text = true /\ payload ex_text = map format_line ex_text_events /\
+  render (saved_text ex_text_events) = format_log ex_text_events /\ text_ok (saved_text ex_text_events) = true.
+Proof. vm_compute. repeat split; reflexivity. Qed.
+
+Example ex_text_parse :
+  parse_log (render ex_text) =
+    [Call 0 (Write 1); Ret 0 (mkOut false false 0 false); Call 1 Read; Ret 1 (mkOut false true 2 false)] /\
+  check (parse_log (render ex_text)) = false.
+Proof. vm_compute. split; reflexivity. Qed.
+
+(* the unterminated last line matters: a reader that drops it leaves the read open-ended, i.e.
+   unconstrained, and the non-linearizable run is accepted *)
+Example ex_text_last_line_matters :
+  parse_log (render (removelast ex_text)) =
+    [Call 0 (Write 1); Ret 0 (mkOut false false 0 false); Call 1 Read; Ret 1 (mkOut false false 0 true)] /\
+  check (parse_log (render (removelast ex_text))) = true.
+Proof. vm_compute. split; reflexivity. Qed.
+
+(* outside [text_ok]: a final "\r" without "\n" is no line terminator; the line then ends in white
+   space and is ignored (by the model and by the code alike) *)
+Example ex_text_lone_cr :
+  text_ok [(bs "INFO  jepsen.util - 1   :invoke :read   nil" ++ [13], ENone)] = false /\
+  parse_log (bs "INFO  jepsen.util - 1   :invoke :read   nil" ++ [13]) = [] /\
+  parse_log (bs "INFO  jepsen.util - 1   :invoke :read   nil" ++ [13; 10]) = [Call 0 Read; Ret 0 (mkOut false false 0 true)].
+Proof. vm_compute. repeat split; reflexivity. Qed.
